@@ -1012,6 +1012,13 @@ class SubsFamily(ReorgFamily):
                                 remine=rng.choice([0.0, 0.5, 1.0]), at=at, seed=rng.getrandbits(32)))
             elif r < 0.62:
                 ops.append(dict(op='admin_reorg', n=rng.choice([1, 2]), at=at))
+                if rng.random() < 0.5:
+                    # ... preceded by the daemon moving to a competing branch of the same length: the reorganisation
+                    # ends at the height it started from, with other blocks
+                    d = ops[-1]['n']
+                    ops[-1]['at'] = round(at + rng.uniform(0.3, 3.0), 3)
+                    ops.insert(len(ops) - 1, dict(op='fork', depth=d, extra=0, ntx=ntx_list(rng, d),
+                                                  remine=rng.choice([0.0, 0.5]), at=at, seed=rng.getrandbits(32)))
             elif r < 0.88:
                 ops.append(dict(op='mp_add', n=rng.randint(1, 4), chain=rng.choice([0.0, 0.5, 0.9]),
                                 at=at, seed=rng.getrandbits(32)))
